@@ -38,7 +38,12 @@ func scenarioHTTPAPI(t *traceWriter, rng *rand.Rand) {
 			lss = append(lss, ls)
 			defs = append(defs, ls.l)
 		}
-		s := newSession(t, stores[h%len(stores)], defs, wk)
+		// the same stores behind a wrapper that can make Logs / ReadOps / GetLatest fail while the API is probed
+		kind := stores[h%len(stores)]
+		hnd := newStore(kind)
+		ctl := &lspCtl{fail: map[string]bool{}}
+		s := newSessionWith(t, kind, defs, wk, &wrapLSP{inner: hnd.p, ctl: ctl, tid: func() int { return 0 }}, nil)
+		s.store.close = hnd.close
 		r := mux.NewRouter()
 		ihttp.NewServer(s.w).RegisterHandlers(r)
 		srv := httptest.NewServer(r)
@@ -46,6 +51,12 @@ func scenarioHTTPAPI(t *traceWriter, rng *rand.Rand) {
 		cl := whttp.NewWitness(base, srv.Client())
 		probe := func() {
 			states := s.statesOf()
+			faults := ""
+			if rng.Intn(4) == 0 {
+				faults = []string{"g", "r", "L", "gL"}[rng.Intn(4)]
+			}
+			ctl.setFaults(faults)
+			defer ctl.setFaults("")
 			ids := []string{}
 			for _, l := range defs {
 				ids = append(ids, l.id)
@@ -77,7 +88,7 @@ func scenarioHTTPAPI(t *traceWriter, rng *rand.Rand) {
 				default:
 					cres = "err"
 				}
-				t.line("A %s kind=get id=%s states=%s => status=%d body=%s client=%s", s.id, hx([]byte(id)), states, status, hx(body), cres)
+				t.line("A %s kind=get id=%s faults=%s states=%s => status=%d body=%s client=%s", s.id, hx([]byte(id)), faults, states, status, hx(body), cres)
 			}
 			resp, err := srv.Client().Get(srv.URL + "/witness/v0/logs")
 			if err == nil {
@@ -96,7 +107,7 @@ func scenarioHTTPAPI(t *traceWriter, rng *rand.Rand) {
 						lst = "-"
 					}
 				}
-				t.line("A %s kind=logs states=%s => status=%d list=%s", s.id, states, resp.StatusCode, lst)
+				t.line("A %s kind=logs faults=%s states=%s => status=%d list=%s", s.id, faults, states, resp.StatusCode, lst)
 			}
 		}
 		probe()
